@@ -1859,3 +1859,47 @@ def unguarded_affix_strips(fnode):
             (not p) and t == 'not %s.%s(%s)' % (xt, kind, yt) for t, p in facts)
         if not ok:
             yield x, xt, yt, kind
+
+
+# --------------------------------------------------------------------------- G23
+
+
+def accidental_ranges(pattern):
+    """character-class ranges of a regular expression whose end points are not of one kind (both digits, both lower
+    case, both upper case): `[A-Za-z0-9*.-_ ]` contains the range `.`-`_`, which takes in digits, upper case and a lot
+    of punctuation -- and no longer the hyphen itself.  Returns [(lo char, hi char)]."""
+    import re as _re
+    try:
+        import re._parser as sp
+    except ImportError:            # Python < 3.11
+        import sre_parse as sp
+    try:
+        tree = sp.parse(pattern)
+    except Exception:
+        return []
+    out = []
+
+    def walk(items):
+        for op, av in items:
+            name = str(op)
+            if name == 'IN':
+                for op2, av2 in av:
+                    if str(op2) == 'RANGE':
+                        lo, hi = chr(av2[0]), chr(av2[1])
+                        same = (lo.isdigit() and hi.isdigit()) or (lo.islower() and hi.islower() and lo.isalpha() and hi.isalpha()) \
+                            or (lo.isupper() and hi.isupper() and lo.isalpha() and hi.isalpha()) or (ord(lo) > 127 and ord(hi) > 127)
+                        if not same:
+                            out.append((lo, hi))
+            elif name in ('MAX_REPEAT', 'MIN_REPEAT', 'POSSESSIVE_REPEAT'):
+                walk(av[2])
+            elif name == 'SUBPATTERN':
+                walk(av[3])
+            elif name == 'BRANCH':
+                for alt in av[1]:
+                    walk(alt)
+            elif name in ('ASSERT', 'ASSERT_NOT'):
+                walk(av[1])
+            elif name == 'ATOMIC_GROUP':
+                walk(av)
+    walk(tree)
+    return out
